@@ -165,11 +165,62 @@ def run(prog, tier):
     for vg in validators.virtual_guards(prog, w):
         vg_calls.setdefault(vg['call'], []).append(vg)
 
+    def lit_value(i):
+        """null / non-null / true / false for a literal initialiser or right-hand side, else None"""
+        m = w.nodes[w.strip(i, 'all')]
+        if m['k'] in ('CXXNullPtrLiteralExpr', 'GNUNullExpr') or (m['k'] == 'IntegerLiteral' and str(m.get('v')) == '0'):
+            return 'null'
+        if m['k'] == 'StringLiteral':
+            return 'nonnull'
+        if m['k'] == 'CXXBoolLiteralExpr':
+            return 'nonnull' if m.get('v') else 'null'
+        return None
+
+    def update_env(nid, env):
+        """simple local flags (a pointer or bool set from literals: `const char* problem = nullptr; ... problem = "...";`)"""
+        if nid is None:
+            return env
+        n = w.nodes[nid]
+        e = dict(env)
+        if n['k'] == 'DeclStmt':
+            for d in n['decls']:
+                if d.get('tc') in ('p', 'b') and 'init' in d:
+                    v = lit_value(d['init'])
+                    if v is not None:
+                        e[d['id']] = v
+                    else:
+                        e.pop(d['id'], None)
+        elif n['k'] == 'BinaryOperator' and n['op'] == '=':
+            t = w.nodes[w.strip(n['ch'][0], 'all')]
+            if t['k'] == 'DeclRefExpr' and t['decl'].get('dk') == 'local':
+                v = lit_value(n['ch'][1])
+                if v is not None:
+                    e[t['decl']['id']] = v
+                else:
+                    e.pop(t['decl']['id'], None)
+        return frozenset(e.items()) if e != dict(env) else env
+
     def atom(state):
-        failed, dirty, opn, thr = state
+        failed, dirty, opn, thr = state[:4]
+        env = dict(state[4]) if len(state) > 4 else {}
+
+        def flag(i):
+            m = w.nodes[w.strip(i, 'all')]
+            if m['k'] == 'DeclRefExpr' and m['decl'].get('dk') == 'local' and m['decl'].get('id') in env:
+                return env[m['decl']['id']]
+            return None
 
         def a(i):
             n = w.nodes[i]
+            # a local flag compared with null / used as a condition
+            if n['k'] == 'BinaryOperator' and n['op'] in ('==', '!='):
+                for x, y in ((n['ch'][0], n['ch'][1]), (n['ch'][1], n['ch'][0])):
+                    fv = flag(x)
+                    if fv is not None and lit_value(y) == 'null':
+                        return (fv == 'null') if n['op'] == '==' else (fv != 'null')
+            fv = flag(i)
+            if fv is not None:
+                return fv != 'null'
             if i in uses and uses[i][0] == 'member':
                 name = uses[i][1]
                 if name == 'is_open':
@@ -188,9 +239,15 @@ def run(prog, tier):
     unknown = []
 
     def step(vid, state):
+        env = state[4] if len(state) > 4 else frozenset()
+        env2 = update_env(g.node_of(vid), env)
+        return [(ns[:4] + (env2,), tg) for ns, tg in step4(vid, state[:4] + (env,))]
+
+    def step4(vid, state):
         """abstract transfer of the event at vertex vid: list of (state, target) where target is
         'next' or 'throw'"""
-        failed, dirty, opn, thr = state
+        failed, dirty, opn, thr = state[:4]
+        state = state[:4]
         nid = g.node_of(vid)
         if nid is None:
             return [(state, 'next')]
@@ -292,7 +349,7 @@ def run(prog, tier):
     res.minimum('stream events in c3d::write', nevents, 4)
 
     # exploration
-    start = (g.ENTRY, (False, False, False, False))
+    start = (g.ENTRY, (False, False, False, False, frozenset()))
     seen = {start: None}
     work = [start]
     bad_exit = []
